@@ -252,6 +252,18 @@ RelBorderPointsFixed == Relocated => ((\E j \in DOMAIN bord : bord[j] = pt) => ~
 \* the outcome is unique unless two border points are equally near
 RelDeterministicWithoutTies == Relocated => (Cardinality(Nearest(pt, bord)) = 1 => Cardinality(Outcomes(pt, bord)) = 1)
 RelOutcomeExists == Relocated => Outcomes(pt, bord) # {}
+\* relocation commutes with translations and with (integer) scalings of the whole instance: the same coordinates stay, the
+\* same border points are nearest, squared radii scale with the square of the factor.  This is what lets the driver realise
+\* one lattice instance at any exact offset and power-of-two scale and judge it against ONE expectation.
+Shift(p, d) == << p[1] + d[1], p[2] + d[2] >>
+Scale(p, k) == << k * p[1], k * p[2] >>
+RelTranslationInvariant ==
+    Relocated => \A d \in { << 7, -5 >>, << -300, 100 >>, << 0, 1000 >> } :
+                    Outcomes(Shift(pt, d), [j \in DOMAIN bord |-> Shift(bord[j], d)]) = Outcomes(pt, bord)
+RelScaleCovariant ==
+    Relocated => \A k \in {2, 3, 16} :
+                    Outcomes(Scale(pt, k), [j \in DOMAIN bord |-> Scale(bord[j], k)])
+                        = { [o EXCEPT !.r2 = k * k * o.r2] : o \in Outcomes(pt, bord) }
 
 \* no call of a history is judged against the border of a grid passed to an EARLIER call
 HistOwnBorder == phase = "history" => \A k \in DOMAIN obs : obs[k].border_of = obs[k].grid
